@@ -1212,6 +1212,11 @@ func findLiteralFollowingLeadingLoop(node *RegexNode) *LiteralAfterLoop {
 		}
 		break
 	}
+	if strings.ContainsRune(prefix, utf8.RuneError) {
+		// a surrogate pattern rune reaches the buffer as U+FFFD and the decoded literal would not
+		// match it (a genuine U+FFFD in the pattern just loses this optimisation)
+		prefix = ""
+	}
 	if len(prefix) >= 1 {
 		// The literal can be searched for as either a single char or as a string.
 		// But we need to make sure that its starting character isn't part of the preceding
